@@ -366,7 +366,7 @@ package sbom
 //@   inline
 //@   assigns \nothing
 //@   ensures [C08:indexRoots:keys] result != nil && fresh(result) && (forall k string :: (k in result) <==> (k in elems(nl.RootElements)))
-//@   invariant L0: [C08:idx] index != nil && fresh(index) && (forall k string :: (k in index) <==> (k in elemsn(nl.RootElements, _i)))
+//@   invariant L0: index != nil && fresh(index) && (forall k string :: (k in index) <==> (k in elemsn(nl.RootElements, _i)))
 
 // the purl a node is looked up by ("" for files and for nodes without one): the value of Node.Purl
 //@ pred purlOf(n *Node) = (n.Type == 1 ? "" : ((1 in n.Identifiers) ? n.Identifiers[1] : ""))
@@ -412,14 +412,28 @@ package sbom
 
 // ---- traversal ----
 
-// NodeGraph: only the frame condition is under contract. Its shape postconditions
-// (drafted: absent/shape/root/subset/unique with visited-set invariants) need
-// "no nil entry" of the edge-index buckets in set form to establish
-// cleanEdges' precondition, which in turn needs pairwise distinct bucket
-// arrays in indexEdges' invariant; not done.
+// NodeGraph: shape of the result, the root-boundary rule and forward closure of the node set
+// (the upper half of reachability: every non-root successor inside the list of a returned node
+// with a non-empty identifier is returned; exact reachability needs a transitive closure and is not stated)
 //@ func NodeList.NodeGraph
-//@   props C11
+//@   props C11, C15
 //@   assigns \nothing
+//@   requires [C15:pre] validNL(nl)
+//@   ensures [C15:graph:absent] (result == nil) <==> !(id in fieldset(nl.Nodes, Id))
+//@   ensures [C15:graph:shape] result != nil ==> fresh(result) && validNL(result) && closedEdges(result) && normalisedNL(result)
+//@   ensures [C15:graph:root] result != nil ==> len(result.RootElements) == 1 && result.RootElements[0] == id && (id in fieldset(result.Nodes, Id))
+//@   ensures [C15:graph:subset] result != nil ==> (forall a int :: 0 <= a && a < len(result.Nodes) ==> (result.Nodes[a] in elems(nl.Nodes)))
+//@   ensures [C15:graph:unique] result != nil ==> (forall a int, b int :: 0 <= a && a < b && b < len(result.Nodes) ==> result.Nodes[a].Id != result.Nodes[b].Id)
+//@   ensures [C15:graph:rootRule] result != nil ==> (forall a int :: 0 <= a && a < len(result.Nodes) ==> result.Nodes[a].Id == id || !(result.Nodes[a].Id in elems(nl.RootElements)))
+//@   ensures [C15:graph:closed] result != nil ==> (forall a int, r *Edge, j int :: 0 <= a && a < len(result.Nodes) && (r in elems(nl.Edges)) && r.From == result.Nodes[a].Id && r.From != "" && 0 <= j && j < len(r.To) && (r.To[j] in fieldset(nl.Nodes, Id)) && !(r.To[j] in elems(nl.RootElements)) ==> (r.To[j] in fieldset(result.Nodes, Id)))
+//@   invariant L0: [C15:inv] nodelist != nil && fresh(nodelist) && len(nodelist.RootElements) == 0 && !(nil in elems(nodelist.Edges))
+//@   invariant L0: [C15:inv] graphIndex != nil && (forall k string :: (k in graphIndex) ==> graphIndex[k] != nil && graphIndex[k].Id == k && (graphIndex[k] in elems(nl.Nodes)))
+//@   invariant L0: [C15:inv] edgeIdx != nil && (forall f string, t Edge_Type, a int :: (f in edgeIdx) && (t in edgeIdx[f]) && 0 <= a && a < len(edgeIdx[f][t]) ==> edgeIdx[f][t][a] != nil)
+//@   invariant L0: [C15:inv] (forall x string :: (x in fieldset(nodelist.Nodes, Id)) <==> (x in _V)) && (forall k string :: (k in _V) ==> (k in graphIndex)) && (forall a int :: 0 <= a && a < len(nodelist.Nodes) ==> nodelist.Nodes[a] != nil && (nodelist.Nodes[a].Id in _V) && (nodelist.Nodes[a] in elems(nl.Nodes))) && (forall a int, b int :: 0 <= a && a < b && b < len(nodelist.Nodes) ==> nodelist.Nodes[a].Id != nodelist.Nodes[b].Id) && !(nil in elems(nodelist.Nodes))
+//@   invariant L1: [C15:inv] nodelist != nil && fresh(nodelist) && len(nodelist.RootElements) == 0 && !(nil in elems(nodelist.Edges))
+//@   invariant L1: [C15:inv] graphIndex != nil && (forall k string :: (k in graphIndex) ==> graphIndex[k] != nil && graphIndex[k].Id == k && (graphIndex[k] in elems(nl.Nodes)))
+//@   invariant L1: [C15:inv] edgeIdx != nil && (forall f string, t Edge_Type, a int :: (f in edgeIdx) && (t in edgeIdx[f]) && 0 <= a && a < len(edgeIdx[f][t]) ==> edgeIdx[f][t][a] != nil)
+//@   invariant L1: [C15:inv] (forall x string :: (x in fieldset(nodelist.Nodes, Id)) <==> (x in _V1)) && (forall k string :: (k in _V1) ==> (k in graphIndex)) && (forall a int :: 0 <= a && a < len(nodelist.Nodes) ==> nodelist.Nodes[a] != nil && (nodelist.Nodes[a].Id in _V1) && (nodelist.Nodes[a] in elems(nl.Nodes))) && (forall a int, b int :: 0 <= a && a < b && b < len(nodelist.Nodes) ==> nodelist.Nodes[a].Id != nodelist.Nodes[b].Id) && !(nil in elems(nodelist.Nodes))
 
 //@ func NodeList.NodeSiblings
 //@   props C11, C15
@@ -500,12 +514,19 @@ package sbom
 //@   invariant L5: [C15:inv] forall a int, b int :: 0 <= a && a < b && b < len(nl2.Nodes) ==> nl2.Nodes[a].Id != nl2.Nodes[b].Id
 //@   invariant L5: [C15:inv] !(nil in elems(nl2.Nodes))
 
+// forward closure at k: every target of an edge leaving k that names a node of the list and is not a
+// boundary is in the index (closedAt: boundaries given as the index map; closedAtR: as the root list)
+//@ pred closedAt(nl *NodeList, s nodeIndex, b rootElementsIndex, k string) = forall r *Edge, j int :: (r in elems(nl.Edges)) && r.From == k && 0 <= j && j < len(r.To) && (r.To[j] in fieldset(nl.Nodes, Id)) && !(r.To[j] in b) ==> (r.To[j] in s)
+//@ pred closedAtR(nl *NodeList, s nodeIndex, k string) = forall r *Edge, j int :: (r in elems(nl.Edges)) && r.From == k && 0 <= j && j < len(r.To) && (r.To[j] in fieldset(nl.Nodes, Id)) && !(r.To[j] in elems(nl.RootElements)) ==> (r.To[j] in s)
+
 //@ func NodeList.indexConnectedNodes
 //@   props C11, C15
 //@   assigns \nothing
 //@   requires validNL(nl)
 //@   ensures [C15:connected:start] (id in result) <==> (id in fieldset(nl.Nodes, Id))
 //@   ensures [C15:connected:index] result != nil && fresh(result) && (forall k string :: (k in result) ==> result[k] != nil && result[k].Id == k && (result[k] in elems(nl.Nodes)))
+//@   ensures [C15:connected:rootRule] forall k string :: (k in result) ==> k == id || !(k in elems(nl.RootElements))
+//@   ensures [C15:connected:closed] forall k string :: (k in result) && k != "" ==> closedAtR(nl, result, k)
 
 //@ func NodeList.connectedIndexRecursion
 //@   props C11, C15
@@ -517,6 +538,12 @@ package sbom
 //@   ensures [C15:connected:index] *connectedNodes == old(*connectedNodes) && (forall k string :: (k in (*connectedNodes)) ==> (*connectedNodes)[k] != nil && (*connectedNodes)[k].Id == k && ((*connectedNodes)[k] in elems(nl.Nodes)))
 //@   invariant L0: [C15:inv] *connectedNodes == old(*connectedNodes) && (forall k string :: (k in (*connectedNodes)) ==> (*connectedNodes)[k] != nil && (*connectedNodes)[k].Id == k && ((*connectedNodes)[k] in elems(nl.Nodes)))
 //@   invariant L0: [C15:inv] siblings != nil && (forall a int :: 0 <= a && a < len(siblings.Nodes) ==> siblings.Nodes[a] != nil && (siblings.Nodes[a] in elems(nl.Nodes)))
+//@   ensures [C15:connected:boundary] forall k string :: (k in *connectedNodes) && !(k in old(keys(*connectedNodes))) ==> !(k in *boundaries)
+//@   invariant L0: [C15:inv] forall k string :: (k in *connectedNodes) && !(k in old(keys(*connectedNodes))) ==> !(k in *boundaries)
+//@   ensures [C15:connected:closed] ((id in fieldset(nl.Nodes, Id)) && id != "" ==> closedAt(nl, *connectedNodes, *boundaries, id)) && (forall k string :: (k in *connectedNodes) && !(k in old(keys(*connectedNodes))) && k != "" ==> closedAt(nl, *connectedNodes, *boundaries, k))
+//@   invariant L0: [C15:inv] forall k string :: (k in *connectedNodes) && !(k in old(keys(*connectedNodes))) && k != "" ==> closedAt(nl, *connectedNodes, *boundaries, k)
+//@   invariant L0: [C15:inv] forall x string :: (x in fieldsetn(siblings.Nodes, Id, _i)) ==> (x in *connectedNodes) || (x in *boundaries)
+//@   invariant L0: [C15:inv] (id in fieldset(nl.Nodes, Id)) ==> (forall r *Edge, j int :: (r in elems(nl.Edges)) && r.From == id && 0 <= j && j < len(r.To) && (r.To[j] in fieldset(nl.Nodes, Id)) ==> (r.To[j] in fieldset(siblings.Nodes, Id)))
 
 // ---------------------------------------------------------------------------
 // C01: mutually inverse enum tables (SPDX 2.3)
